@@ -2997,7 +2997,10 @@ else {
    free( data_chunk_table ) ;
    if( bytes_read < block_bytes ) {
       *error_return = INCOMPLETE_DATA ;
-      memset( data_pointer, 0, (size_t)(block_bytes - bytes_read) ) ;
+	/** bytes_read and block_bytes count bytes of the file, data_pointer
+	    moves in memory (as in ADF_Read_All_Data) **/
+      memset( data_pointer, 0,
+	      (size_t)((block_bytes - bytes_read) * memory_bytes / file_bytes) ) ;
       } /* end if */
    } /* end else */
 
